@@ -35,6 +35,8 @@ type Profile struct {
 	IdenticalPods                  bool // all pods of a workload identical (always true today)
 	GPUNodesOnly                   bool // every node has GPUs
 	NoBindFailures                 bool // the binder model never fails a request
+	Fill                           bool // small nodes and many running workloads: clusters are (nearly) full
+	Contention                     bool // GPUs are the bottleneck: GPU nodes, GPU workloads, meaningful GPU quotas
 }
 
 func DefaultProfile() Profile {
@@ -178,6 +180,15 @@ func genNodes(t *rapid.T, pf Profile, w *World) {
 			nd.GPUMem = pickInt(t, "gpuMem", 0, 16000, 16384, 40000, 16000)
 		}
 		nd.CPU = pickInt(t, "cpu", 4000, 8000, 16000, 32000)
+		if pf.Fill {
+			nd.GPUs = pickInt(t, "gpusFill", 0, 1, 2, 2, 4)
+			nd.CPU = pickInt(t, "cpuFill", 2000, 4000, 4000, 8000)
+		}
+		if pf.Contention {
+			nd.GPUs = pickInt(t, "gpusContention", 1, 2, 2, 4)
+			nd.GPUMem = pickInt(t, "gpuMemContention", 16000, 16000, 40000)
+			nd.CPU, nd.MemMB = 32000, 65536
+		}
 		nd.MemMB = pickInt(t, "mem", 8192, 16384, 65536)
 		nd.Pods = 110
 		if chance(t, pf.PSmallPodSlots, "smallSlots") {
@@ -218,11 +229,14 @@ func genNodes(t *rapid.T, pf Profile, w *World) {
 }
 
 func genQRes(t *rapid.T, label string, scale float64, pf Profile, fractional bool) QRes {
-	if !fractional && chance(t, 7, label+"Free") {
+	if !fractional && (pf.Contention || chance(t, 7, label+"Free")) {
 		return QRes{Quota: -1, Limit: -1, Weight: 1}
 	}
 	q := QRes{Limit: -1, Weight: pickF(t, label+"W", 0, 1, 1, 1, 2, 3)}
-	if fractional {
+	if fractional && pf.Contention {
+		q.Quota = pickF(t, label+"QC", 0, 0, 1, 1, 2, 2, 3, 4)
+		q.Weight = pickF(t, label+"WC", 1, 1, 2, 0)
+	} else if fractional {
 		q.Quota = pickF(t, label+"Q", -1, 0, 0, 0.5, 1, 1, 2, 4, 8)
 	} else {
 		q.Quota = pickF(t, label+"Q", -1, -1, 0, 2, 4, 8, 16) * scale
@@ -398,6 +412,9 @@ func (p *placer) nodeModel(name string) *Node {
 
 func genTemplate(t *rapid.T, pf Profile, w *World) Pod {
 	p := Pod{CPU: pickInt(t, "pCpu", 100, 500, 1000, 2000), MemMB: pickInt(t, "pMem", 128, 1024, 2048)}
+	if pf.Contention {
+		p.CPU, p.MemMB = pickInt(t, "pCpuC", 100, 500), 128
+	}
 	hasGPUNodes, hasMIG, hasDongle := false, false, false
 	for _, n := range w.Nodes {
 		if n.GPUs > 0 && n.MigStrategy != "mixed" {
@@ -425,6 +442,9 @@ func genTemplate(t *rapid.T, pf Profile, w *World) Pod {
 		}
 	case hasGPUNodes && chance(t, pf.PWholeGPU, "wholeGpu"):
 		p.GPUs = pickInt(t, "pGpus", 1, 1, 1, 2, 2, 4, 8)
+		if pf.Contention {
+			p.GPUs = pickInt(t, "pGpusC", 1, 1, 1, 2)
+		}
 	}
 	if hasDongle && chance(t, 3, "dongle") {
 		if p.Ext == nil {
